@@ -5,6 +5,8 @@
 //   B  a server that says nothing is declared dead with MissedServerHeartbeats, not before 2h of silence (1.9 s) and promptly (< 4 s);
 //   C  a server that sends something every h/2 is never declared dead (4 s), although it answers no heartbeat as such;
 //   D  with h = 0 nothing is sent and silence is never fatal (2.5 s);
+//   F  ANY inbound traffic counts as liveness: one large frame (a 100 000 byte body frame, also a 3 000 byte one) whose bytes arrive in small pieces
+//      every h/3 for 4 s - nothing else can be interleaved inside a frame - must not get the server declared dead, and the message arrives;
 //   E  the lower of the two sides' values is what counts: server 1 s / client 60 s behaves like A, server 0 / client 1 s like D.
 include!("/verif/witness/_common/live_broker.rs");
 use crate::{Auth, Connection, ConnectionOptions, ConnectionTuning, Error};
@@ -84,5 +86,37 @@ fn verif_timing_c17_d_zero_disables() {
         let ch = connection.open_channel(None).unwrap_or_else(|e| panic!("server {} client {}: silence was fatal with heartbeats off: {}", s, c, e));
         std::mem::forget(ch);
         connection.close().unwrap();
+    }
+}
+
+#[test]
+fn verif_timing_c17_f_bytes_of_one_slow_frame_count_as_liveness() {
+    use crate::{ConsumerMessage, ConsumerOptions};
+    for &body_len in &[100_000usize, 3_000] {
+        let (ctl, mut connection) = open(1, 1);
+        let ch = connection.open_channel(Some(1)).unwrap();
+        let consumer = ch.basic_consume("q", ConsumerOptions::default()).unwrap();
+        let body: Vec<u8> = (0..body_len).map(|i| (i % 251) as u8).collect();
+        let mut bytes = method_bytes(1, B::Deliver(basic::Deliver { consumer_tag: consumer.consumer_tag().to_string(), delivery_tag: 1, redelivered: false, exchange: "x".to_string(), routing_key: "k".to_string() }));
+        bytes.extend(content_bytes(1, &body));
+        // method frame, header frame and the first bytes of the body frame at once; the rest of the body frame trickles in: a piece every
+        // 330 ms, for about 4 s = 4 intervals, every readable event carrying continuation bytes of that one frame only
+        let head = bytes.len() - body_len + 5;
+        ctl.inject(bytes[..head].to_vec());
+        let rest = &bytes[head..];
+        let pieces = 12;
+        let piece = (rest.len() + pieces - 1) / pieces;
+        for chunk in rest.chunks(piece) {
+            thread::sleep(Duration::from_millis(330));
+            ctl.inject(chunk.to_vec());
+        }
+        match consumer.receiver().recv_timeout(Duration::from_secs(5)) {
+            Ok(ConsumerMessage::Delivery(d)) => assert!(d.body == body, "{} byte body: delivered body differs", body_len),
+            other => panic!("{} byte body arriving slowly but steadily: the server was declared dead or the message lost: {:?}", body_len, other),
+        }
+        assert!(ch.queue_purge("q").is_ok(), "{} byte body: connection unusable after a slowly arriving frame", body_len);
+        std::mem::forget(consumer);
+        std::mem::forget(ch);
+        connection.close().unwrap_or_else(|e| panic!("{} byte body: close: {}", body_len, e));
     }
 }
